@@ -243,6 +243,166 @@ Section RestFull.
   Qed.
 End RestFull.
 
+(** ** (1') the executed MOIST whole-state model (MoistPrimitiveEquations: explicit_terms_full_moist with cloud = false) at rest:
+    isothermal, uniform specific humidity q0 (tracer 0), lnps = cst * (0,0)-spectrum - g orog / (R T0 (1 + eps q0)).
+    Remaining named table hypotheses (in-range only): H_q_uniform, H_gradq_zero (the nodal humidity is q0 and its nodal
+    gradient 0 on the node range), H_lap_one (the analysed constant has no laplacian), H_lapn (laplacian(lnps) survives
+    to_nodal -> to_modal under the clip). *)
+Section RestFullMoist.
+  Context {F : Type} {o : Ops F} {Fc : FieldC o}.
+  Add Field FFsm : (field_c : FieldTh o).
+  Ltac fsc := repeat split; first [assumption | (let Z := fresh in intro Z; match goal with H : _ * _ <> 0 |- _ => apply H; rewrite Z; ring end)].
+  Variable g : @HGrid F.
+  Variable c : @PEcfg F.
+  Variable m : @Moist F.
+  Variables grav T0 cst v00 q0 : F.
+  Variable orog : nat -> nat -> F.
+  Variable s : @State F.
+  Hypothesis RT0_nz : cR c * T0 <> 0.
+  Hypothesis R_nz : cR c <> 0.
+  Let eps := mRv m / cR c - 1.
+  Hypothesis mf_nz : 1 + eps * q0 <> 0.
+  Hypothesis Tref_iso : forall k, (k < cK c)%nat -> cTref c k = T0.
+  Hypothesis vort0 : forall k a l, (k < cK c)%nat -> (a < hR g)%nat -> (l < hL g)%nat -> s_vort s k a l = 0.
+  Hypothesis div0 : forall k a l, (k < cK c)%nat -> (a < hR g)%nat -> (l < hL g)%nat -> s_div s k a l = 0.
+  Hypothesis temp0 : forall k a l, (k < cK c)%nat -> (a < hR g)%nat -> (l < hL g)%nat -> s_temp s k a l = 0.
+  Hypothesis H_hydrostatic : forall a l, (a < hR g)%nat -> (l < hL g)%nat ->
+      s_lnps s a l = cst * onem00 v00 (a, l) - grav / (cR c * T0 * (1 + eps * q0)) * orog a l.
+  Hypothesis has_humidity : s_tr s <> [].
+  Hypothesis H_q_uniform : forall k i j, (k < cK c)%nat -> (i < hI g)%nat -> (j < hJ g)%nat ->
+      to_nodal g (q_modal s k) i j = q0.
+  Hypothesis H_gradq_zero : forall k i j, (k < cK c)%nat -> (i < hI g)%nat -> (j < hJ g)%nat ->
+      to_nodal g (fst (gradm g (q_modal s k))) i j = 0 /\ to_nodal g (snd (gradm g (q_modal s k))) i j = 0.
+  Definition lapn0 (p : Wi) : F := to_nodal g (lapm g (s_lnps s)) (fst p) (snd p).
+  Hypothesis H_lap_one : forall a l, (a < hR g)%nat -> (l < hL g)%nat -> lap_c g (toM_c g (fun _ => 1)) (a, l) = 0.
+  Hypothesis H_lapn : forall a l, (a < hR g)%nat -> (l < hL g)%nat ->
+      clip_c g (toM_c g lapn0) (a, l) = clip_c g (lap_c g (unc (s_lnps s))) (a, l).
+
+  Let d := diagnostic_state g (cK c) s.
+  Let md := moist_diag g (cK c) s.
+  Let X := X_of g d.
+  Let q := trn d 0.
+  Let gqx := gq_of (m_gqx md).
+  Let gqy := gq_of (m_gqy md).
+
+  Let u0 : forall p k, n_u (X p) k = 0 := rest_u0 g c s vort0 div0.
+  Let v0 : forall p k, n_v (X p) k = 0 := rest_v0 g c s vort0 div0.
+  Let d0 : forall p k, n_div (X p) k = 0 := rest_d0 g c s div0.
+  Let t0 : forall p k, n_temp (X p) k = 0 := rest_t0 g c s temp0.
+
+  Lemma moist_gqx0 p k : gqx p k = 0.
+  Proof.
+    unfold gqx, gq_of, md, moist_diag. cbn [m_gqx]. unfold to_nodal3. apply memo3_zero.
+    intros k0 i j Hk Hi Hj. exact (proj1 (H_gradq_zero k0 i j Hk Hi Hj)).
+  Qed.
+  Lemma moist_gqy0 p k : gqy p k = 0.
+  Proof.
+    unfold gqy, gq_of, md, moist_diag. cbn [m_gqy]. unfold to_nodal3. apply memo3_zero.
+    intros k0 i j Hk Hi Hj. exact (proj2 (H_gradq_zero k0 i j Hk Hi Hj)).
+  Qed.
+  Lemma moist_q_nodes i j k : (k < cK c)%nat -> (i < hI g)%nat -> (j < hJ g)%nat -> q (i, j) k = q0.
+  Proof.
+    intros Hk Hi Hj. unfold q, trn, tr_of, d, diagnostic_state. cbn [d_tr fst snd].
+    pose proof (H_q_uniform k i j Hk Hi Hj) as E. unfold q_modal in E.
+    destruct (s_tr s) as [|qm rest]; [contradiction has_humidity; reflexivity|].
+    cbn [map nth] in *. unfold to_nodal3. rewrite memo3_ok by assumption. exact E.
+  Qed.
+
+  Lemma lap_c_ext_pt (x y : Wi -> F) w : x w = y w -> lap_c g x w = lap_c g y w.
+  Proof. destruct w. intros H. unfold lap_c, unc, lapm, Deriv.laplacian, cur. cbn [fst snd]. now rewrite H. Qed.
+
+  Theorem whole_state_rest_isothermal_steady_moist k a l :
+    (k < cK c)%nat -> (a < hR g)%nat -> (l < hL g)%nat ->
+    let E := explicit_terms_full_moist g false c m grav orog s in
+    let I := implicit_terms_full g c s in
+    s_vort E k a l + s_vort I k a l = 0 /\
+    s_temp E k a l + s_temp I k a l = 0 /\
+    s_lnps E a l + s_lnps I a l = 0 /\
+    s_div E k a l + s_div I k a l = grav / (1 + eps * q0) * (lapm g orog a l - clipm g (lapm g orog) a l) /\
+    ((l < hL g - 1)%nat -> s_div E k a l + s_div I k a l = 0).
+  Proof.
+    intros Hk Ha Hl. cbv zeta.
+    destruct (explicit_terms_full_moist_is_assembly g c m grav orog false s k a l Hk Ha Hl) as (Ev & Ed & Et & El).
+    cbv zeta in Ev, Ed, Et, El.
+    fold d in Ev, Ed, Et, El. fold md in Ev, Ed. fold X in Ev, Ed, Et, El. fold q in Ed, Et. fold gqx in Ev, Ed. fold gqy in Ev, Ed.
+    change (rt_full g false c m d) with (fun p => rt_moist c m (X p) (q p)) in Ev, Ed.
+    assert (Rd : s_div (explicit_terms_full_moist g false c m grav orog s) k a l + s_div (implicit_terms_full g c s) k a l
+                 = grav / (1 + eps * q0) * (lapm g orog a l - clipm g (lapm g orog) a l)).
+    { rewrite Ed. unfold div_tendency_explicit, humidity_div_modal.
+      set (k0 := q0 * T0 * (mRv m - cR c)).
+      set (Gc := geo_diff false c (fun k1 => q0 * (0 + T0) * (mRv m / cR c - 1)) k).
+      assert (A1 : toM_c g (fun p => humidity_geo_nodal c false m (X p) (q p) k) (a, l) = Gc * toM_c g (fun _ => 1) (a, l)).
+      { rewrite <- (lin_scal (toM_c g) (toM_c_lin g) (fun _ => Gc * 1) (fun _ => 1) Gc (fun _ => eq_refl) (a, l)).
+        apply toM_c_ext_range; [assumption|]. intros i j Hi Hj.
+        unfold humidity_geo_nodal, humidity_temperature_diff, Gc, geo_diff, geo_diff_dense.
+        rewrite <- sumn_scal_r. apply sumn_ext. intros k1 Hk1.
+        rewrite (moist_q_nodes i j k1 Hk1 Hi Hj), t0, (Tref_iso k1 Hk1). ring. }
+      assert (A2 : toM_c g (fun p => humidity_div_nodal c m (X p) (q p) (gqx p) (gqy p) (m_lap md (fst p) (snd p)) k) (a, l)
+                   = k0 * toM_c g lapn0 (a, l)).
+      { rewrite <- (lin_scal (toM_c g) (toM_c_lin g) (fun p => k0 * lapn0 p) lapn0 k0 (fun _ => eq_refl) (a, l)).
+        apply toM_c_ext_range; [assumption|]. intros i j Hi Hj.
+        unfold humidity_div_nodal, k0, lapn0, md, moist_diag. cbv zeta. cbn [m_lap fst snd].
+        rewrite sh_memo2_ok by assumption.
+        rewrite moist_gqx0, moist_gqy0, (moist_q_nodes i j k Hk Hi Hj), (Tref_iso k Hk). ring. }
+      assert (A3 : divc_c g (toM_c g (fun p => combined_u c true (X p) (rt_moist c m (X p) (q p)) k))
+                          (toM_c g (fun p => combined_v c true (X p) (rt_moist c m (X p) (q p)) k)) (a, l) = 0).
+      { apply (divc_zero Wi (divc_c g) (divc_c_lin g)); intros w2; apply (toM_zero Wi Wi (toM_c g) (toM_c_lin g)); intros p.
+        - apply (combined_um0 Wi c X u0 v0 d0 t0).
+        - apply (combined_vm0 Wi c X u0 v0 d0 t0). }
+      assert (A4 : toM_c g (fun p => kinetic (X p) k) (a, l) = 0).
+      { apply (toM_zero Wi Wi (toM_c g) (toM_c_lin g)). intros p. apply (kinetic0 Wi X u0 v0). }
+      pose proof (H_lap_one a l Ha Hl) as E1. pose proof (H_lapn a l Ha Hl) as E2.
+      pose proof (lap_c_const g v00 (a, l)) as E3. pose proof (lap_c_const g 1 (a, l)) as E4.
+      cbn [implicit_terms_full s_div].
+      unfold div_tendency_implicit, div_implicit_potential.
+      assert (Eg : geo_diff false c (fun k1 => unc (s_temp s k1) (a, l)) k = 0).
+      { unfold geo_diff, geo_diff_dense. apply sumn_zero. intros k1 Hk1. unfold unc. cbn [fst snd].
+        rewrite (temp0 k1 a l Hk1 Ha Hl). ring. }
+      unfold clip_c, lap_c, unc, cur, clipm, lapm, Deriv.clip, Deriv.laplacian in *. cbn [fst snd] in *.
+      rewrite Eg, A1, A2, A3, A4, (H_hydrostatic a l Ha Hl), (Tref_iso k Hk).
+      rewrite (H_hydrostatic a l Ha Hl) in E2.
+      set (eig := Deriv.lap_eig (hL g) (hr g) l) in *.
+      set (TL := toM_c g lapn0 (a, l)) in *. set (T1 := toM_c g (fun _ => 1) (a, l)) in *.
+      set (O := orog a l) in *.
+      assert (Hmf : mRv m - cR c = eps * cR c) by (unfold eps; field; exact R_nz).
+      unfold k0. rewrite Hmf.
+      unfold onem00 in *. cbn [fst snd] in *.
+      destruct (Nat.ltb l (hL g - (1 + (hL g - hL g)))).
+      - assert (E2' : TL = (cst * (if (Nat.eqb a 0 && Nat.eqb l 0)%bool then v00 else 0)
+                            - grav / (cR c * T0 * (1 + eps * q0)) * O) * eig)
+          by (transitivity (TL * 1); [ring|rewrite E2; ring]).
+        rewrite E2'.
+        destruct (Nat.eqb a 0 && Nat.eqb l 0)%bool.
+        + assert (Ez : eig = 0) by (transitivity (1 * eig); [ring|exact E4]). rewrite Ez. field. fsc.
+        + transitivity ((- (Gc * (T1 * eig))) + grav / (1 + eps * q0) * (O * eig - O * eig * 1)); [field; fsc|].
+          rewrite E1. ring.
+      - destruct (Nat.eqb a 0 && Nat.eqb l 0)%bool.
+        + assert (Ez : eig = 0) by (transitivity (1 * eig); [ring|exact E4]). rewrite Ez. field. fsc.
+        + field. fsc. }
+    split; [|split; [|split; [|split]]].
+    - rewrite Ev. cbn [implicit_terms_full s_vort]. unfold zero3.
+      rewrite (rest_vorticity_steady_moist Wi Wi (toM_c g) (curlc_c g) (clip_c g) (toM_c_lin g) (curlc_c_lin g) (clip_c_lin g)
+                 c X u0 v0 d0 t0 m q gqx gqy moist_gqx0 moist_gqy0 k (a, l)). ring.
+    - rewrite Et.
+      assert (Ei : s_temp (implicit_terms_full g c s) k a l = temp_tendency_implicit Wi c (fun _ _ => 0) k (a, l)).
+      { cbn [implicit_terms_full s_temp]. unfold temp_tendency_implicit, temp_implicit_col, temp_implicit_dense.
+        apply matvec_ext. intros h Hh. unfold unc. cbn [fst snd]. now apply div0. }
+      rewrite Ei.
+      exact (rest_temperature_steady_moist Wi Wi (toM_c g) (divc_c g) (clip_c g) (toM_c_lin g) (divc_c_lin g) (clip_c_lin g)
+               c X u0 v0 d0 t0 (fun _ _ => 0) (fun _ _ => eq_refl) m q k (a, l)).
+    - rewrite El.
+      assert (Ei : s_lnps (implicit_terms_full g c s) a l = lnps_implicit_col c (fun s0 => (fun _ _ => 0) s0 (a, l))).
+      { cbn [implicit_terms_full s_lnps]. unfold lnps_implicit_col. f_equal.
+        apply matvec_ext. intros h Hh. now apply div0. }
+      rewrite Ei. unfold lnps_tendency_explicit_c.
+      exact (rest_lnps_steady Wi Wi (toM_c g) (clip_c g) (toM_c_lin g) (clip_c_lin g)
+               c X u0 v0 (fun _ _ => 0) (fun _ _ => eq_refl) (a, l)).
+    - exact Rd.
+    - intros Hl1. rewrite Rd. unfold clipm, Deriv.clip.
+      destruct (Nat.ltb_spec l (hL g - (1 + (hL g - hL g)))); [ring|lia].
+  Qed.
+End RestFullMoist.
+
 From Dino Require Import Model.ShallowWater.
 
 (** ** (2) shallow water: explicit_terms of Model/ShallowWater.v ([Section SWAssembly], the assembly that
@@ -369,3 +529,158 @@ Section SWRefine.
     rewrite E1, E2, E3. auto.
   Qed.
 End SWRefine.
+
+(** ** (2') the concrete shallow-water operators of Model/ShallowWater.v are linear in the all-index sense of
+    Thm/PrimEq.v ([linear], [linear2]): staged arrays read 0 outside the index range, inside they are the
+    SHT / Deriv operators.  Both layouts ([fast] arbitrary).  Hence [sw_model_refines_spec] holds for the
+    EXECUTED [sw_explicit_terms]. *)
+Section SWConcreteLinear.
+  Context {F : Type} {o : Ops F} {Fc : FieldC o}.
+  Add Field FFswl : (field_c : FieldTh o).
+
+  Lemma sh_memo2_out_col n m (x : nat -> nat -> F) a j : (m <= j)%nat -> sh_memo2 n m x a j = 0.
+  Proof.
+    intros Hj. destruct (Nat.lt_ge_cases a n) as [Ha|Ha]; [|now apply sh_memo2_out_row].
+    unfold sh_memo2. rewrite (nth_map_seq (fun a0 => map (x a0) (seq 0 m)) n a []) by assumption.
+    apply nth_overflow. rewrite map_length, seq_length. exact Hj.
+  Qed.
+  Lemma sw_stage_cases n m (g : @arr2 F) (w : Wn) :
+    sw_stage n m g w = if (Nat.ltb (fst w) n && Nat.ltb (snd w) m)%bool then g (fst w) (snd w) else 0.
+  Proof.
+    unfold sw_stage.
+    destruct (Nat.ltb_spec (fst w) n) as [H1|H1]; cbn [andb]; [|now apply sh_memo2_out_row].
+    destruct (Nat.ltb_spec (snd w) m) as [H2|H2]; [now apply sh_memo2_ok|now apply sh_memo2_out_col].
+  Qed.
+
+  Lemma dlon_fast_lin R off (x y : nat -> nat -> F) (t : F) i l :
+    dlon_fast R off (fun i l => x i l + t * y i l) i l = dlon_fast R off x i l + t * dlon_fast R off y i l.
+  Proof.
+    unfold dlon_fast, shift_rows. rewrite !shift1_lin. unfold dfast_sel. destruct (dfast_cond i); ring.
+  Qed.
+  Lemma dlon_fast_ext_all R off (x y : nat -> nat -> F) i l :
+    (forall i l, x i l = y i l) -> dlon_fast R off x i l = dlon_fast R off y i l.
+  Proof.
+    intros H. unfold dlon_fast, shift_rows.
+    rewrite (shift1_ext_all R dfast_down_off (fun i' => x i' l) (fun i' => y i' l)) by (intros; apply H).
+    rewrite (shift1_ext_all R dfast_up_off (fun i' => x i' l) (fun i' => y i' l)) by (intros; apply H).
+    reflexivity.
+  Qed.
+  Lemma d_dlon_lin fast R (x y : nat -> nat -> F) (t : F) i l :
+    d_dlon fast R (fun i l => x i l + t * y i l) i l = d_dlon fast R x i l + t * d_dlon fast R y i l.
+  Proof. unfold d_dlon. destruct fast; [apply dlon_fast_lin|apply dlon_ref_lin]. Qed.
+  Lemma d_dlon_ext_all fast R (x y : nat -> nat -> F) i l :
+    (forall i l, x i l = y i l) -> d_dlon fast R x i l = d_dlon fast R y i l.
+  Proof. intros H. unfold d_dlon. destruct fast; [now apply dlon_fast_ext_all|now apply dlon_ref_ext_all]. Qed.
+
+  Variables (fast : bool) (R L I J : nat).
+  Variable f : nat -> nat -> F.
+  Variable p : nat -> nat -> nat -> F.
+  Variable wq : nat -> F.
+  Variables (rad : F) (wa wb : @arr2 F).
+
+  Theorem sw_toM_lin : linear (sw_toM R L I J f p wq).
+  Proof.
+    split.
+    - intros x y H w. unfold sw_toM. rewrite !sw_stage_cases.
+      destruct (Nat.ltb_spec (fst w) R) as [H1|H1]; cbn [andb]; [|reflexivity].
+      destruct (Nat.ltb (snd w) L); [|reflexivity].
+      apply analysis_ext; [assumption|]. intros i j _ _. unfold sw_un. apply H.
+    - intros t x y w. unfold sw_toM. rewrite !sw_stage_cases.
+      destruct (Nat.ltb_spec (fst w) R) as [H1|H1]; cbn [andb]; [|ring].
+      destruct (Nat.ltb (snd w) L); [|ring].
+      rewrite (analysis_ext R I J f p wq (sw_un (fun a => x a + t * y a))
+                 (fun i j => t * sw_un y i j + sw_un x i j) (fst w) (snd w) H1) by (intros; unfold sw_un; ring).
+      rewrite analysis_linear by assumption. ring.
+  Qed.
+
+  Theorem sw_divc_lin : linear2 (sw_divc fast R L rad wa wb).
+  Proof.
+    split.
+    - intros x1 y1 x2 y2 E1 E2 w. unfold sw_divc. rewrite !sw_stage_cases.
+      destruct (Nat.ltb (fst w) R && Nat.ltb (snd w) L)%bool; [|reflexivity].
+      unfold div_cos_lat, clip_if, clip. cbn [fst snd].
+      rewrite (d_dlon_ext_all fast R (sw_un x1) (sw_un y1)) by (intros; apply E1).
+      rewrite (D2_ext_all L L wa wb (sw_un x2) (sw_un y2)) by (intros; apply E2).
+      reflexivity.
+    - intros t x1 y1 x2 y2 w. unfold sw_divc. rewrite !sw_stage_cases.
+      destruct (Nat.ltb (fst w) R && Nat.ltb (snd w) L)%bool; [|ring].
+      unfold div_cos_lat, clip_if, clip. cbn [fst snd].
+      change (sw_un (fun a => x1 a + t * y1 a)) with (fun i l => sw_un x1 i l + t * sw_un y1 i l).
+      change (sw_un (fun a => x2 a + t * y2 a)) with (fun i l => sw_un x2 i l + t * sw_un y2 i l).
+      rewrite d_dlon_lin, D2_lin, !fdiv_mul. ring.
+  Qed.
+
+  Theorem sw_curlc_lin : linear2 (sw_curlc fast R L rad wa wb).
+  Proof.
+    split.
+    - intros x1 y1 x2 y2 E1 E2 w. unfold sw_curlc. rewrite !sw_stage_cases.
+      destruct (Nat.ltb (fst w) R && Nat.ltb (snd w) L)%bool; [|reflexivity].
+      unfold curl_cos_lat, clip_if, clip. cbn [fst snd].
+      rewrite (d_dlon_ext_all fast R (sw_un x2) (sw_un y2)) by (intros; apply E2).
+      rewrite (D2_ext_all L L wa wb (sw_un x1) (sw_un y1)) by (intros; apply E1).
+      reflexivity.
+    - intros t x1 y1 x2 y2 w. unfold sw_curlc. rewrite !sw_stage_cases.
+      destruct (Nat.ltb (fst w) R && Nat.ltb (snd w) L)%bool; [|ring].
+      unfold curl_cos_lat, clip_if, clip. cbn [fst snd].
+      change (sw_un (fun a => x1 a + t * y1 a)) with (fun i l => sw_un x1 i l + t * sw_un y1 i l).
+      change (sw_un (fun a => x2 a + t * y2 a)) with (fun i l => sw_un x2 i l + t * sw_un y2 i l).
+      rewrite d_dlon_lin, D2_lin, !fdiv_mul. ring.
+  Qed.
+
+  Theorem sw_lap_lin : linear (sw_lap L rad).
+  Proof.
+    split.
+    - intros x y H w. unfold sw_lap, laplacian, sw_un. now rewrite H.
+    - intros t x y w. unfold sw_lap, laplacian, sw_un. ring.
+  Qed.
+  Theorem sw_clip_lin : linear (sw_clip L).
+  Proof.
+    split.
+    - intros x y H w. unfold sw_clip, clip, sw_un. now rewrite H.
+    - intros t x y w. unfold sw_clip, clip, sw_un. ring.
+  Qed.
+  Lemma sw_lap_diag (x : Wn -> F) (w : Wn) : sw_lap L rad x w = x w * lap_eig L rad (snd w).
+  Proof. destruct w as [a l]. reflexivity. Qed.
+
+  (** *** the refinement for the EXECUTED shallow-water model: (V, D, Pt) = sw_explicit_terms ... state, implicit part per
+      coefficient = Model/Implicit.v sw_implicit_terms with the coefficient's laplacian eigenvalue *)
+  Variable N : nat.
+  Variable dens : nat -> F.
+  Variable omega : F.
+  Variable sinlat : nat -> F.
+  Variable orog : option (@arr2 F).
+  Variables vort dive pot : nat -> @arr2 F.
+  Variable ref : nat -> F.
+
+  Let X := sw_cols_of_state fast R L I J N f p rad wa wb vort dive pot (sw_sec2 sinlat) (sw_coriolis omega sinlat).
+  Let potw := fun k => sw_pk (pot k).
+  Let divw := fun k => sw_pk (dive k).
+  Let orogw := option_map sw_pk orog.
+  Let toMs := sw_toM R L I J f p wq.
+  Let divs := sw_divc fast R L rad wa wb.
+  Let curls := sw_curlc fast R L rad wa wb.
+  Let laps := sw_lap L rad.
+  Let clips := sw_clip L.
+
+  Theorem sw_concrete_refines_spec r (w : Wn) :
+    (r < N)%nat ->
+    (* H_sw_pot_clip *)
+    clips (laps (potw r)) w = laps (potw r) w ->
+    (* H_sw_div_vel *)
+    clips (divs (toMs (fun q => s_u (X q) r * s_sec2 (X q))) (toMs (fun q => s_v (X q) r * s_sec2 (X q)))) w = divw r w ->
+    let E := sw_explicit_terms fast R L I J N f p wq rad wa wb dens omega sinlat orog vort dive pot in
+    let imp := sw_implicit_terms (ref r) (lap_eig L rad (snd w)) (dive r (fst w) (snd w), pot r (fst w) (snd w)) in
+    fst (fst E) r w + 0
+    = clips (fun w' => - divs (toMs (sw_flux_u Wn X r)) (toMs (sw_flux_v Wn X r)) w') w /\
+    snd (fst E) r w + fst imp
+    = clips (fun w' => curls (toMs (sw_flux_u Wn X r)) (toMs (sw_flux_v Wn X r)) w'
+                       - laps (fun w2 => sumn N (fun j => sw_Rm dens r j * potw j w2) + sw_orog0 Wn orogw w2
+                                         + toMs (sw_kin Wn X r) w2) w') w /\
+    snd E r w + snd imp
+    = clips (fun w' => - divs (toMs (sw_mass_u Wn X ref r)) (toMs (sw_mass_v Wn X ref r)) w') w.
+  Proof.
+    intros Hr Hpc Hdv.
+    exact (sw_model_refines_spec Wn Wn toMs divs curls laps clips sw_toM_lin sw_divc_lin sw_lap_lin sw_clip_lin
+             N dens X potw divw orogw ref (fun w0 => lap_eig L rad (snd w0)) sw_lap_diag r w Hr Hpc Hdv).
+  Qed.
+End SWConcreteLinear.
